@@ -27,7 +27,9 @@ package codecs
 //@        && result.(*VP9).Profile == in.(*fmp4.CodecVP9).Profile && result.(*VP9).BitDepth == in.(*fmp4.CodecVP9).BitDepth
 //@        && result.(*VP9).ChromaSubsampling == in.(*fmp4.CodecVP9).ChromaSubsampling && result.(*VP9).ColorRange == in.(*fmp4.CodecVP9).ColorRange)
 //@   ensures is(in, *fmp4.CodecOpus) ==> (is(result, *Opus) && result.(*Opus).ChannelCount == in.(*fmp4.CodecOpus).ChannelCount)
-//@   ensures is(in, *fmp4.CodecMPEG4Audio) ==> is(result, *MPEG4Audio)
+//@   ensures is(in, *fmp4.CodecMPEG4Audio) ==> (is(result, *MPEG4Audio) && result.(*MPEG4Audio).Config.SampleRate == in.(*fmp4.CodecMPEG4Audio).Config.SampleRate
+//@        && result.(*MPEG4Audio).Config.ChannelCount == in.(*fmp4.CodecMPEG4Audio).Config.ChannelCount && result.(*MPEG4Audio).Config.Type == in.(*fmp4.CodecMPEG4Audio).Config.Type)
+//@   ensures (!is(in, *fmp4.CodecH264) && !is(in, *fmp4.CodecH265) && !is(in, *fmp4.CodecAV1) && !is(in, *fmp4.CodecVP9) && !is(in, *fmp4.CodecOpus) && !is(in, *fmp4.CodecMPEG4Audio)) ==> result == nil
 //@ end
 
 // ToFMP4 reads the parameters of a muxer track: called by the writer inside the critical section that
@@ -42,5 +44,26 @@ package codecs
 //@        && result.(*fmp4.CodecVP9).Profile == in.(*VP9).Profile && result.(*fmp4.CodecVP9).BitDepth == in.(*VP9).BitDepth
 //@        && result.(*fmp4.CodecVP9).ChromaSubsampling == in.(*VP9).ChromaSubsampling && result.(*fmp4.CodecVP9).ColorRange == in.(*VP9).ColorRange)
 //@   ensures is(in, *Opus) ==> (is(result, *fmp4.CodecOpus) && result.(*fmp4.CodecOpus).ChannelCount == in.(*Opus).ChannelCount)
-//@   ensures is(in, *MPEG4Audio) ==> is(result, *fmp4.CodecMPEG4Audio)
+//@   ensures is(in, *MPEG4Audio) ==> (is(result, *fmp4.CodecMPEG4Audio) && result.(*fmp4.CodecMPEG4Audio).Config.SampleRate == in.(*MPEG4Audio).Config.SampleRate
+//@        && result.(*fmp4.CodecMPEG4Audio).Config.ChannelCount == in.(*MPEG4Audio).Config.ChannelCount && result.(*fmp4.CodecMPEG4Audio).Config.Type == in.(*MPEG4Audio).Config.Type)
+//@ end
+
+// C09: the MPEG-TS codec mapping (only H264 and MPEG-4 Audio exist there; anything else maps to nil, which the
+// callers treat as "unsupported")
+//@ func FromMPEGTS
+//@   props C09 C13
+//@   role init
+//@   ensures is(in, *mpegts.CodecH264) ==> is(result, *H264)
+//@   ensures is(in, *mpegts.CodecMPEG4Audio) ==> (is(result, *MPEG4Audio) && result.(*MPEG4Audio).Config.SampleRate == in.(*mpegts.CodecMPEG4Audio).Config.SampleRate
+//@        && result.(*MPEG4Audio).Config.ChannelCount == in.(*mpegts.CodecMPEG4Audio).Config.ChannelCount && result.(*MPEG4Audio).Config.Type == in.(*mpegts.CodecMPEG4Audio).Config.Type)
+//@   ensures (!is(in, *mpegts.CodecH264) && !is(in, *mpegts.CodecMPEG4Audio)) ==> result == nil
+//@ end
+
+//@ func ToMPEGTS
+//@   props C09
+//@   role writer
+//@   ensures is(in, *H264) ==> is(result, *mpegts.CodecH264)
+//@   ensures is(in, *MPEG4Audio) ==> (is(result, *mpegts.CodecMPEG4Audio) && result.(*mpegts.CodecMPEG4Audio).Config.SampleRate == in.(*MPEG4Audio).Config.SampleRate
+//@        && result.(*mpegts.CodecMPEG4Audio).Config.ChannelCount == in.(*MPEG4Audio).Config.ChannelCount && result.(*mpegts.CodecMPEG4Audio).Config.Type == in.(*MPEG4Audio).Config.Type)
+//@   ensures (!is(in, *H264) && !is(in, *MPEG4Audio)) ==> result == nil
 //@ end
